@@ -921,6 +921,36 @@ def run(ctx):
                     "(a reply parked behind the processor leaves the fired Deferred in place)" % (h, g.name, h), where(g, n.stmt),
                     "stop() while a fetch reply is parked; start() again: the stale handle makes the fetcher return at once, the "
                     "restarted consumer never fetches")
+    # every Deferred handle stop() cancels is gone afterwards - cleared by stop() itself on every path, or by a stage of its own
+    # chain (which the cancellation runs): the next run tests these handles ("a block is being worked through", "a request
+    # is outstanding") and would wait behind a Deferred that fired long ago
+    cstop_ = ctx.cfg(stop)
+    for h, k in sorted(active.items()):
+        if k != "deferred" or h not in sc:
+            continue
+        a_ok = all(known_falsy(fst[pid], "self." + h) or getattr(node_assign_value(cstop_.nodes[pid], h), "value", 1) is None or any(
+            getattr(node_assign_value(m_, h), "value", 1) is None and not cstop_.normal_exits_from(c_n.id, avoid=[m_.id]) for m_ in cstop_.nodes for c_n, _c in sc[h])
+            for pid, lab in cstop_.pred[cstop_.exit.id]) or all(
+            any(getattr(node_assign_value(m_, h), "value", 1) is None and (m_.id == c_n.id or not cstop_.normal_exits_from(c_n.id, avoid=[m_.id]) or cstop_.dominates([m_.id], c_n.id))
+                for m_ in cstop_.nodes) for c_n, _c in sc[h])
+        # the cancellation runs the failure side of the chain: a stage that runs on both outcomes (or the first failure-side
+        # stage) and clears the handle on every path does it
+        b_ok = False
+        for f2 in [x for x in prog.funcs.values() if x.cls is ci]:
+            first_eb = True
+            for reg in registrations(f2, prog):
+                if reg["root"] in aliases_of(f2, "self." + h) and reg["eb"] is not None:
+                    hf = prog.resolve_callable(f2, reg["eb"])
+                    if hf is not None and (reg["kind"] == "both" or first_eb):
+                        ch = ctx.cfg(hf)
+                        cl2 = [m.id for m in ch.nodes if getattr(node_assign_value(m, h), "value", 1) is None]
+                        if cl2 and not ch.normal_exits_from(ch.entry.id, avoid=cl2):
+                            b_ok = True
+                    first_eb = False
+        r.check(a_ok or b_ok, "%s#handle(%s)-gone-after-stop" % (stop.qname, h),
+                "stop() cancels self.%s but neither clears it on every path nor does every failure-side stage of its chain" % h, where(stop, stop.node),
+                "stop() while a block of messages is being worked through, then start(): the first reply parks itself behind the "
+                "Deferred that stop() fired - the restarted consumer never processes again")
     # a DelayedCall may be cancelled once: stop() either cancels a timer handle under `.active()`, or clears the handle on
     # every path after cancelling it - else the next stop() (after a restart that did not happen to replace the handle)
     # cancels the dead timer again
@@ -1004,8 +1034,8 @@ MUTANTS = [
      "new": "        # Do we need to abort?\n        if self.request_retry_max_attempts != 0 and self._fetch_attempt_count >= self.request_retry_max_attempts:\n            log.debug(\n                \"%r: Exhausted attempts: %d fetching messages from kafka: %r\",",
      "expect": "C13.R2"},
     {"id": "processor-error-unguarded", "file": "consumer.py",
-     "old": "        if not (self._stopping and failure.check(CancelledError)):\n            if self._start_d:",
-     "new": "        if True:\n            if self._start_d:", "expect": "C13.R2"},
+     "old": "        if not (self._stopping and failure.check(CancelledError)):\n",
+     "new": "        if True:\n", "expect": "C13.R2"},
     {"id": "shutdown-reenters-stop", "file": "consumer.py",
      "old": "            if not self._stopping and self._start_d is not None:\n                self.stop()\n            self._shuttingdown = False  # Shutdown complete\n            d.errback(",
      "new": "            self.stop()\n            self._shuttingdown = False  # Shutdown complete\n            d.errback(", "expect": "C13.R2"},
